@@ -451,6 +451,11 @@ def check_case(case: dict[str, Any], col: common.Collector) -> None:
     if spec is None:
         spec = proggen.generate(case["seed"], case["profile"], opts=OPTS)
     rng = common.rng_for(spec["vseed"], "c15", case.get("scenario"))
+    if case.get("spec") is None and case.get("scenario") == "outkeys" and rng.random() < 0.5:
+        # one array returned under two (or three) keys: every key must be a kernel output
+        k0 = rng.choice(sorted(spec["outputs"]))
+        for j in range(rng.choice([1, 1, 2])):
+            spec["outputs"][f"{k0}_alias{j}"] = spec["outputs"][k0]
     if "naming" in case:
         naming, close = case["naming"], True
     else:
@@ -474,6 +479,13 @@ def check_case(case: dict[str, Any], col: common.Collector) -> None:
                          "scenario": "baseline"}, bcol, {})
         bad = {v["witness"].get("output_key") for v in bcol.violations
                if v["key"].startswith("C15:value-under-renaming")}
+        for v in bcol.violations:
+            # the default names are a naming too: a key or an input name that does not
+            # appear in the kernel is this property's matter, not C01's
+            if v["key"].startswith(("C15:output-keys", "C15:input-name-missing")):
+                col.violation(v["key"] + ":default-names", v["what"],
+                              {"spec": spec, "naming": {"inputs": {}, "outputs": {}, "tags": {},
+                                                        "expect": "ok", "scenario": "baseline"}})
         if any(not v["key"].startswith("C15:value-under-renaming") for v in bcol.violations) \
                 or not bcol.counters.get("mon.value_oracle"):
             col.histo("baseline_unusable", "x")
